@@ -6,7 +6,7 @@ import threading
 
 import z3
 
-from . import mir
+from . import mir, lin
 from .mir import split_top, parsed_block
 from .defs import strip_generics, generic_args
 from .values import *
@@ -54,6 +54,7 @@ class Interp:
         self.fns_encoded = {}       # fn name -> blocks
         self.nfid = 0
         self.frames = {}
+        self.bounds = {}           # uninterpreted symbol / function name -> (lb, ub): must be implied by the path condition
         self.named_consts = {}
         self.frame_env = {}        # fid -> {type parameter: instantiation text}
         self.clo_env = {}          # closure type -> env of the frame that created it
@@ -318,6 +319,8 @@ class Interp:
             return z3.BoolVal(False)
         if s == '()':
             return unit()
+        if s == '[]':
+            return VecVal((), 'array')
         if s.startswith('"') or s.startswith('b"'):
             return Opaque('str:' + s[:60])
         m = re.fullmatch(r"'(.)'", s)
@@ -413,7 +416,7 @@ class Interp:
                     r = hook(self, st, v)
                     if r is not None:
                         return r
-            raise Inconclusive('unop %s on %r' % (rv[1], x))
+            raise Inconclusive('unop %s on %r (-> %r)' % (rv[1], x, self.deref(st, x) if isinstance(x, Ref) else None))
         if k == 'tuple':
             return Struct('tuple', [self.operand(st, fid, o, fn) for o in rv[1]])
         if k == 'array':
@@ -447,6 +450,11 @@ class Interp:
             vals = [self.operand(st, fid, o, fn) for o in ops]
             p = strip_generics(path)
             parent, _, last = p.rpartition('::')
+            if not parent and dst_ty:
+                dk = self.defs.tykey(dst_ty)
+                de = self.defs.enum_of(dk)
+                if de is not None and last in de.index:
+                    return Enum(dk, last, vals)
             if not parent and last in BARE_VARIANTS:
                 return Enum(BARE_VARIANTS[last], last, vals)
             pk = self.defs.tykey(parent) if parent else None
@@ -539,6 +547,12 @@ class Interp:
             return BV(x.t | y.t, x.ty)
         if op == 'BitXor':
             return BV(x.t ^ y.t, x.ty)
+        if op in ('AddWithOverflow', 'SubWithOverflow') and not s and not (z3.is_bv_value(x.t) and z3.is_bv_value(y.t)):
+            # interval reasoning over bounded atoms (sound, see lin.py); undecided cases go to the solver as before
+            dec = lin.add_overflows(x.t, y.t, self.bounds) if op == 'AddWithOverflow' else lin.sub_underflows(x.t, y.t, self.bounds)
+            if dec is not None:
+                self.stats['interval_decisions'] = self.stats.get('interval_decisions', 0) + 1
+                return tup(BV(x.t + y.t if op == 'AddWithOverflow' else x.t - y.t, x.ty), z3.BoolVal(dec))
         if op == 'AddWithOverflow':
             if s:
                 ovf = z3.Or(z3.Not(z3.BVAddNoOverflow(x.t, y.t, True)), z3.Not(z3.BVAddNoUnderflow(x.t, y.t)))
